@@ -97,6 +97,11 @@ ContactCats(x) ==
 UnexpectedOpenCats(i, rxv) ==
     LET o == Opened[i] IN
     IF \E x \in NewContacts(rxv) : contacts'[x].c = o.c THEN {}
+    \* the fetch of a flight whose leader has left goes on without an owner; when it is re-opened (its entry
+    \* vanished during revalidation) the request still carries the departed client's name and must be unconditional
+    ELSE IF \E x \in 1..MaxX : /\ contacts'[x].open /\ contacts'[x].c = 0 /\ contacts'[x].oc = o.c
+                                /\ (contacts'[x] # contacts[x] \/ x = rxv)
+    THEN (IF o.inm = "absent" /\ o.ims = "absent" THEN {} ELSE {"C06"})
     ELSE IF WasFollower(o.c) \/ creq'[o.c].st = "wait" THEN {"C05"}
     ELSE IF \E m \in last' : m.c = o.c /\ m.label = "HIT" THEN {"C04"}
     ELSE {"C05"}
